@@ -19,6 +19,43 @@ def relevant(dev):
     return any(p.startswith("obs.filt") for p in paths) and not any(p.startswith("obs.k_set") for p in paths)
 
 
+def cubical_order_part(ev, unknown, tier):
+    """The filtration order of cubical complexes (Bitmap_cubical_complex.h) is part of this property: the cases of the
+    C13 model (Cubical.tla: order by (value, dimension, bitmap position)) are run on the real complexes and the
+    deviations of filtration_simplex_range are attributed to C03."""
+    from checks import c13
+    work = os.path.join(vf.BUILD, "work", "%s_cub_%d" % (PROP, os.getpid()))
+    os.makedirs(work, exist_ok=True)
+    b = vf.build("cub_cases", "cub_cases.cpp")
+    models = c13.QUICK_MODELS
+    results = c13.run_models(models, 700)
+    cases_path = os.path.join(work, "cases.ndjson")
+    n = 0
+    with open(cases_path, "w") as f:
+        for part, cfg, k in models:
+            for i in range(k):
+                r = results[(part, i)]
+                if r.violation or not r.ok:
+                    raise vf.Infra("Cubical model failed: %s" % (r.violation or r.text)[-1500:])
+                for tag, o in vf.emits(r.outfile, ("CASE",)):
+                    f.write(json.dumps(o, separators=(",", ":")) + "\n")
+                    n += 1
+                ev.add_tlc("cubical_%s[%d]" % (part, i), r)
+    outs = [os.path.join(work, "out_%d.ndjson" % i) for i in range(4)]
+    vf.run_parallel([[b, cases_path, outs[i], str(i), "4"] for i in range(4)], par=4, timeout=900, ok_codes=(0, 3))
+    nord = 0
+    for o in outs:
+        for rec in vf.read_ndjson(o):
+            if rec.get("kind") == "deviation" and rec.get("op") == "filtration_simplex_range":
+                unknown.append(rec)
+            elif rec.get("kind") == "summary":
+                nord += rec.get("cases", 0)
+    ev.parts["cubical_filtration_order"] = {"cases": n, "valued_complexes_run": nord,
+                                            "compared": "filtration_simplex_range of Bitmap_cubical_complex (plain and periodic) against the "
+                                                        "order (value, dimension, position) of Cubical.tla, exactly"}
+    return nord
+
+
 def main(tier):
     ev = vf.Evidence(PROP, tier)
     fnd = vf.Findings()
@@ -70,7 +107,8 @@ def main(tier):
     first = open(files[-1]).read().splitlines()
     ev.sample({"extend_event": json.loads(first[1]) if len(first) > 1 else None}, 3)
     ev.sample({"edge": {"act": g.out[g.init][0][0]}}, 3)
-    ev.cov["evaluations"] = total + nev
+    ncub = cubical_order_part(ev, unknown, tier)
+    ev.cov["evaluations"] = total + nev + ncub
     ev.cov["distinct_nontrivial"] = ev.cov["states"]
     ev.cov["exhaustive"] = True
     ev.cov["rule"] = ("TLC BFS over all value assignments (3 values, + infinity in thorough) of all complexes on 3 vertices with "
